@@ -100,6 +100,7 @@ type VC struct {
 	specErrors  []string
 	topFrame    *Frame
 	exitVars    map[string]scopeVar
+	lemmaName   string
 }
 
 func NewVC(p *Prog, fn *ssa.Function, c *Contract) *VC {
@@ -154,6 +155,9 @@ func (vc *VC) unsupported(f string, a ...interface{}) {
 }
 
 func (vc *VC) funcName() string {
+	if vc.fn == nil {
+		return vc.lemmaName
+	}
 	pk := ""
 	if vc.fn.Pkg != nil {
 		pk = vc.fn.Pkg.Pkg.Name() + "."
@@ -176,6 +180,14 @@ func (vc *VC) oblige(st *State, class, anchor string, goal Term, props []string,
 	}
 	if props == nil {
 		props = vc.defaultProps(class)
+	}
+	if vc.c != nil {
+		for _, sk := range vc.c.Skip {
+			if sk == class || strings.HasPrefix(class+"@"+anchor, sk) && strings.Contains(sk, "@") {
+				vc.note("safety class %s is not claimed for %s (contract says skip)", class, vc.funcName())
+				return nil
+			}
+		}
 	}
 	o := &Obligation{Name: name, Class: class, Anchor: anchor, Props: props, Goal: Implies(st.pc, goal), Prefix: len(vc.env.order), Desc: desc, Func: vc.funcName()}
 	if pos.IsValid() {
